@@ -377,4 +377,68 @@ theorem init_satisfy_total (vs : Array (Rat × Rat × Rat)) (cs : Array Con)
     simp only
     rw [← Array.foldl_toList, (foldl_addConstraint_fuel _ _).1]
 
+/-! ### the same for `mergeRight` -/
+
+theorem mergeRightPre_fo (s : SSt) (l c : Nat) : (mergeRightPre s l c).fuelOut = s.hs.fuelOut := by
+  simp only [mergeRightPre]
+  rw [setUpOut_fo]; rfl
+
+theorem mergeRightStep_fo (s : SSt) (l c : Nat) : (mergeRightStep s l c).1.hs.fuelOut = s.hs.fuelOut := by
+  simp only [mergeRightStep]
+  rw [mergeOut_fo, checkExact_fo, mergeRightPre_fo]
+
+theorem mergeRightStep_nOwn (s : SSt) (l c : Nat) (hI : IC s.st) (hint : internal s.st c = false)
+    (hl : blkOf s.st (s.st.cons[c]!).l = l) : nOwn (mergeRightStep s l c).1.st < nOwn s.st := by
+  have hne := internal_false s.st c hint
+  rw [mergeRightStep_st]
+  by_cases hsw : blockSize s.st l > blockSize s.st (blkOf s.st (s.st.cons[c]!).r)
+  · simp only [hsw, if_true]
+    exact nOwn_mergeDir _ _ _ _ _ hI (mergeHyp_of s.st c _ _ hI hne (Or.inl ⟨hl.symm, rfl⟩))
+  · simp only [hsw, if_false]
+    exact nOwn_mergeDir _ _ _ _ _ hI (mergeHyp_of s.st c _ _ hI hne (Or.inr ⟨rfl, hl.symm⟩))
+
+/-- with at least as much fuel as there are owning blocks, the `while` loop of `mergeRight` ends by itself -/
+theorem mergeRightLoop_total : ∀ (fuel : Nat) (s : SSt) (l : Nat), WF s → Owns s.st l → nOwn s.st ≤ fuel →
+    (mergeRightLoop fuel s l).hs.fuelOut = s.hs.fuelOut ∧ (mergeRightLoop fuel s l).st.fuelOut = s.st.fuelOut ∧
+    (mergeRightLoop fuel s l).st.blocks.size = s.st.blocks.size ∧ WF (mergeRightLoop fuel s l)
+  | 0, s, l, hw, ho, hle => by
+    have := nOwn_pos s.st l hw.ic ho
+    omega
+  | fuel + 1, s, l, hw, ho, hle => by
+    obtain ⟨f1, f2, _, _, f5⟩ := findMinOut_ok s.st s.hs l hw.hin hw.hout
+    unfold mergeRightLoop
+    simp only
+    split
+    · exact ⟨findMinOut_fo _ _ _, rfl, rfl, hw.with_hs f1 f2⟩
+    · rename_i c hc
+      have hw' : WF { s with hs := (findMinOut s.st s.hs l).1.noteCmp (rawSlack s.st c) } :=
+        hw.with_hs (inOK_of_eq f1 (noteCmp_same _ _).1) (outOK_of_eq f2 (noteCmp_same _ _).2)
+      split
+      · have hint := findMinOut_ext _ _ _ _ hc
+        have hl := f5 c hc ho
+        have hlt := mergeRightStep_nOwn { s with hs := (findMinOut s.st s.hs l).1.noteCmp (rawSlack s.st c) } l c hw.ic hint hl
+        obtain ⟨a, b, d, e⟩ := mergeRightLoop_total fuel _ _ (mergeRightStep_WF _ l c hw' hint hl)
+          (mergeRightStep_owns _ l c hw.ic hint hl) (by
+            have : nOwn ({ s with hs := (findMinOut s.st s.hs l).1.noteCmp (rawSlack s.st c) } : SSt).st = nOwn s.st := rfl
+            omega)
+        refine ⟨a.trans ?_, b.trans ?_, d.trans ?_, e⟩
+        · rw [mergeRightStep_fo]
+          show ((findMinOut s.st s.hs l).1.noteCmp (rawSlack s.st c)).fuelOut = s.hs.fuelOut
+          rw [noteCmp_fo, findMinOut_fo]
+        · rw [mergeRightStep_st, mergeDir_fuel]
+        · rw [mergeRightStep_st, (mergeDir_core _ _ _ _ _).2.2.1]
+      · refine ⟨?_, rfl, rfl, hw'⟩
+        show ((findMinOut s.st s.hs l).1.noteCmp (rawSlack s.st c)).fuelOut = s.hs.fuelOut
+        rw [noteCmp_fo, findMinOut_fo]
+
+theorem mergeRight_total (s : SSt) (l : Nat) (hw : WF s) (ho : Owns s.st l)
+    (hle : s.st.blocks.size ≤ s.st.cons.size + s.st.vars.size + 2) :
+    (mergeRight s l).hs.fuelOut = s.hs.fuelOut ∧ (mergeRight s l).st.fuelOut = s.st.fuelOut ∧
+    (mergeRight s l).st.blocks.size = s.st.blocks.size ∧ WF (mergeRight s l) := by
+  rw [mergeRight_eq]
+  obtain ⟨a, b⟩ := setUpOut_ok s.st s.hs l hw.ic hw.mem hw.hin hw.hout
+  obtain ⟨t1, t2, t3, t4⟩ := mergeRightLoop_total (loopFuel s.st) { st := s.st, hs := setUpOut s.st s.hs l } l
+    ⟨hw.ic, hw.mem, a, b⟩ ho (le_trans (nOwn_le s.st) hle)
+  exact ⟨t1.trans (by rw [setUpOut_fo]), t2, t3, t4⟩
+
 end AdaptaVerif.Lemmas.VpscStaticMem
